@@ -319,6 +319,29 @@ func inProcess(text string) string {
 			return fmt.Sprintf("another-generator-from-same-schema (run %d) output differs", k)
 		}
 	}
+	// an output directory that already holds generated files (the way `go generate` in telegram/ always runs: into the
+	// package's own directory): stale files LONGER than the new ones, then SHORTER ones - the result must be the
+	// files of a fresh generation, nothing of the old content left before, after or instead
+	for k, stale := range []func(string) string{
+		func(c string) string { return c + strings.Repeat("// stale tail of an earlier, longer generation\nvar _ = 0\n", 40) },
+		func(c string) string { return c[:len(c)/2] },
+	} {
+		os.RemoveAll(d2)
+		os.Mkdir(d2, 0755)
+		for name, c := range out1 {
+			ioutil.WriteFile(filepath.Join(d2, name), []byte(stale(c)), 0644)
+		}
+		var g3 *gen.Generator
+		if r := run(func() error { var e error; g3, e = gen.NewGenerator(s, "license", d2); return e }); r != "" {
+			return fmt.Sprintf("generate-into-used-directory (stale files %d) %s", k, r)
+		}
+		if r := run(g3.Generate); r != "" {
+			return fmt.Sprintf("generate-into-used-directory (stale files %d) %s", k, r)
+		}
+		if !sameFiles(out1, readDir(d2)) {
+			return fmt.Sprintf("generate-into-used-directory (stale files %d: %s) output differs from a fresh generation", k, []string{"longer", "shorter"}[k])
+		}
+	}
 	// the generator sorts the method list of the schema it was given in place (harmless: same
 	// definitions, other order); anything beyond a reordering of Methods is a change of the input
 	byName := func(m []tlparser.Method) {
@@ -490,8 +513,25 @@ func (g *sgen) id() uint32 {
 
 func upperFirst(s string) string { return strings.ToUpper(s[:1]) + s[1:] }
 
+// heads that make a name BEGIN like something the parser or the generator treats specially (the builtin rows
+// `int ? = Int;`, the excluded definitions, the Bool constructors) without being it: intPeer, stringData, vectorTop, ...
+var reservedHeads = []string{"int", "long", "double", "string", "bytes", "true", "vector", "bool", "boolTrue", "invoke", "int128", "init"}
+
 func (g *sgen) word(n int) string {
 	var b strings.Builder
+	if g.rng.Intn(6) == 0 {
+		b.WriteString(reservedHeads[g.rng.Intn(len(reservedHeads))])
+		if n < 2 {
+			n = 2
+		}
+		for i := 1; i < n; i++ {
+			b.WriteString(upperFirst(syll[g.rng.Intn(len(syll))]))
+		}
+		if g.stat != nil {
+			g.stat["name-with-reserved-head"]++
+		}
+		return b.String()
+	}
 	for i := 0; i < n; i++ {
 		w := syll[g.rng.Intn(len(syll))]
 		if i > 0 {
